@@ -33,7 +33,11 @@ def _reg_term(kind, N, fixed, tier):
                                                                          kind.lower()))
     def _ob(O, kind=kind, N=N, fixed=fixed):
         R = rep()
-        m, eng, ts, paths = C09.explore_block(O, N, kind, None, 1, fixed=fixed, keep_outcomes=lambda oc: oc != "infeasible")
+        fc4 = None
+        if N >= 4:
+            # (as in C09 / C20: `(` + three arbitrary tokens does not fit the memory cap of the thorough tier)
+            fc4 = lambda k: k != bv64(O.mir.vidx("TokenKind", "LParen"))
+        m, eng, ts, paths = C09.explore_block(O, N, kind, fc4, 1, fixed=fixed, keep_outcomes=lambda oc: oc != "infeasible")
         END, K = bv64(m.vidx("TokenKind", "End")), bv64(m.vidx("TokenKind", kind))
         nok = 0
         for p in paths:
